@@ -100,6 +100,7 @@ Proof.
     eexists; split; [reflexivity|]. constructor; [|constructor]. simpl. unfold allowed. tauto.
   - (* Backend *) eexists; split; [reflexivity|]. constructor; [|constructor]. exact I.
   - (* SetAuth *)
+    apply andb_true_iff in Hrow. destruct Hrow as [Hrow _].
     apply andb_true_iff in Hrow. destruct Hrow as [H1 H2].
     assert (T : c_tls st0 = true) by (rewrite <- Htls; apply Et'; exact H1).
     assert (O : e_ok200 e = true) by (apply Eo'; exact H2).
@@ -196,6 +197,7 @@ Proof.
       split; [split; simpl; intros; auto | exact HO]. }
     inversion Hs; subst; split; [exact HI5 | constructor]. }
   destruct (fold_left (visit e) (e_visits e) (Some (st, []))) as [[s1 e1]|] eqn:F; [|discriminate].
+  destruct (f_auth_final t && existsb _ e1 && negb (e_reply_ok e)); [discriminate|].
   inversion Hs; subst; clear Hs.
   assert (Rows : forall v, In v (e_visits e) -> row_ok v = true /\ acc_row t v = true /\ s_cmd v = w).
   { intros v Hv. destruct (visits_in_table_in t w e VT v Hv) as [Hin Hc].
@@ -250,11 +252,11 @@ Definition old_store_table : facts :=
   mk_facts [("STORE", "message.HandleStore")]
     [mk_site "STORE" "message.HandleStore" AccUserSelf "state.UserID" true true false false false false "w1";
      mk_site "STORE" "message.HandleStore" UseSel "userDB.Exec" true true false false false false "w2"]
-    [("STORE", "message.HandleStore", (1, 1))] true true.
+    [("STORE", "message.HandleStore", (1, 1))] true true true.
 
 Lemma old_accessor_breaks_isolation :
   let st := mk_c true true true 7 true 3 (RoleStore 3) [3] in
-  let e := mk_env false 0 [] (fun _ _ => true) 0 0 (f_sites old_store_table) (TPersonal false) false in
+  let e := mk_env false 0 [] (fun _ _ => true) 0 0 (f_sites old_store_table) (TPersonal false) false true in
   access_ok old_store_table = false /\
   exists st' evs, step old_store_table st "STORE" e = Some (st', evs) /\
     In (Touch (Personal 7)) evs /\ In UseSelId evs /\ c_origin st = RoleStore 3.
@@ -265,7 +267,7 @@ Proof. split; [vm_compute; reflexivity|]. eexists; eexists. split; [vm_compute; 
     to another store than GetSelectedDB returns. *)
 Lemma unfixed_failed_select_breaks_origin :
   let st := mk_c true true true 7 true 3 (RoleStore 3) [3] in
-  let e := mk_env false 0 [] (fun _ _ => true) 0 0 [] (TPersonal false) false in
+  let e := mk_env false 0 [] (fun _ _ => true) 0 0 [] (TPersonal false) false true in
   let st' := fst (do_select false st e) in
   c_sel st' = true /\ c_origin st' <> selected_store st'.
 Proof. vm_compute. split; [reflexivity | discriminate]. Qed.
